@@ -137,6 +137,7 @@ class PackageGenerator:
         self._result_types_files: Dict[str, ast.Module] = {}
         self._generated_files: List[str] = []
         self._unpacked_fragments: Set[str] = set()
+        self._fragments_used_as_mixins: Set[str] = set()
         self._used_enums: List[str] = []
 
         self.enable_custom_operations = enable_custom_operations
@@ -202,6 +203,9 @@ class PackageGenerator:
         )
         self._unpacked_fragments = self._unpacked_fragments.union(
             query_types_generator.get_unpacked_fragments()
+        )
+        self._fragments_used_as_mixins = self._fragments_used_as_mixins.union(
+            query_types_generator.get_fragments_used_as_mixins()
         )
         self._used_enums.extend(query_types_generator.get_used_enums())
         self._result_types_files[file_name] = query_types_generator.generate()
@@ -326,14 +330,12 @@ class PackageGenerator:
             self._generated_files.append(file_path.name)
 
     def _generate_fragments(self):
-        if not set(self.fragments_definitions.keys()).difference(
-            self._unpacked_fragments
-        ):
+        # a fragment unpacked in one place may still be a base class in another
+        exclude_names = self._unpacked_fragments - self._fragments_used_as_mixins
+        if not set(self.fragments_definitions.keys()).difference(exclude_names):
             return
 
-        module = self.fragments_generator.generate(
-            exclude_names=self._unpacked_fragments
-        )
+        module = self.fragments_generator.generate(exclude_names=exclude_names)
         file_path = self.package_path / f"{self.fragments_module_name}.py"
         code = self._add_comments_to_code(ast_to_str(module), self.queries_source)
         file_path.write_text(code)
